@@ -50,6 +50,8 @@ def run(prog, chk):
     chk.rule(_C05.normalisation_idempotent, prog, chk)  # the only normalisation is blank-line removal of the joined *text*: nothing else (CDATA) goes through it
     chk.rule(every_line_is_kept, prog, chk)
     chk.rule(reader_rejects_xml_errors_only, prog, chk)
+    from props import strops as _so3
+    chk.rule(_so3.check_evaluation_sites, prog, chk)  # nothing of a document that passes through is evaluated: not an id on the way to the registry, not an attribute
     chk.obs = [o for o in chk.obs if not (o["rule"] == "A14.class-unique")]
 
 
